@@ -1,6 +1,8 @@
 package main
 
 import (
+	"net"
+	"time"
 	"strconv"
 	"fmt"
 	"math"
@@ -432,6 +434,9 @@ func propC11(c *ctx) error {
 		{"nil chan", (chan int)(nil)}, {"nil error iface", error(nil)}, {"nil []any", []any(nil)}, {"untyped nil", nil},
 		{"*S", &S{A: 1}}, {"*int", &one}, {"empty []int", []int{}}, {"empty map", map[string]int{}}, {"func", fn}, {"chan", ch},
 		{"S{}", S{}}, {"[2]int{}", [2]int{}}, {"int 0", 0}, {"string empty", ""}, {"false", false},
+		// values of types that have an Equal method (the operators compare, they do not call it)
+		{"time t0", c11t0}, {"time t0 again", c11t0.Add(0)}, {"time t1", c11t0.Add(time.Hour)}, {"time t0 UTC", c11t0.UTC()},
+		{"eqT{1}", eqT{1}}, {"eqT{1} again", eqT{1}}, {"eqT{2}", eqT{2}}, {"*eqT", &eqT{1}}, {"net.IP", net.IP{1, 2, 3, 4}}, {"duration", time.Second},
 	}
 	dual := func(srcE, srcN string, data map[string]any, cs J) {
 		e := implEval(srcE, []any{data}, nil)
@@ -460,3 +465,10 @@ func propC11(c *ctx) error {
 	}
 	return nil
 }
+
+var c11t0 = time.Date(2024, 5, 6, 7, 8, 9, 0, time.FixedZone("X", 3600))
+
+// eqT has an Equal method that DISAGREES with ==: the operators must not consult it
+type eqT struct{ n int }
+
+func (a eqT) Equal(b eqT) bool { return true }
